@@ -620,7 +620,7 @@ def assigned_idents(body):
                 if d == 0: break
                 j += 1
             # A_STORE(NAME(args), ...): the object is whatever the accessor macro NAME addresses (the macro must be named in the havoc list); its arguments are index expressions, not written objects
-            if j - (i + 2) >= 3 and IDENT.match(t[i + 2]) and t[i + 3] == '(' and t[j - 1] == ')' and _close_of(t, i + 3) == j - 1:
+            if j - (i + 2) >= 3 and IDENT.match(t[i + 2]) and t[i + 2].startswith('XV_') and t[i + 3] == '(' and t[j - 1] == ')' and _close_of(t, i + 3) == j - 1:   # harness accessor macros (XV_CELL, ...) only
                 out.add(t[i + 2]); continue
             ids = [y for k, y in enumerate(t[i + 2:j], i + 2) if IDENT.match(y) and y != 'self' and not y.endswith('_t') and not (k + 1 < len(t) and t[k + 1] == '(')   # a macro/function applied to the object is not the object
                    and y not in ('unsigned', 'signed', 'int', 'long', 'short', 'char', 'struct', 'const', 'void', 'bool', '_Bool')]
